@@ -138,3 +138,74 @@ def rc_fuzz_texts(rng, n):
                 b[pos:pos] = bytes([rng.choice([0, 0x80, 0xff, 0x0d])]) * rng.randint(1, 3)
         outs.append(b.decode("latin-1"))
     return outs
+
+
+# ------------------------------------------------------------------ DnsMsg: helpers shared by C33 C35 C36 C37
+T_A, T_NS, T_CNAME, T_PTR, T_TXT, T_AAAA, T_OPT = 1, 2, 5, 12, 16, 28, 41
+NAME_TYPES = (T_NS, T_CNAME, T_PTR)
+
+
+def labels(name):
+    """Text name -> list of labels as byte lists (trailing dot dropped)."""
+    if isinstance(name, str):
+        name = name.encode("latin-1")
+    if name.endswith(b"."):
+        name = name[:-1]
+    return [list(l) for l in name.split(b".")] if name else []
+
+
+def join_labels(ls):
+    return b".".join(bytes(l) for l in ls)
+
+
+def plain_name(ls):
+    return b"".join(bytes([len(l)]) + bytes(l) for l in ls) + b"\0"
+
+
+def validate(chk, name, vectors, *, timeout=1500, workers=8):
+    """Binding V: judge implementation-produced bytes with the reference (DnsMsgV.tla).  Returns {index: why}."""
+    if not vectors:
+        return {}
+    path = os.path.join(TMP, "dnsvec_%s_%d.json" % (name, os.getpid()))
+    with open(path, "w") as f:
+        json.dump(vectors, f)
+    cfg = vkit.write_cfg(name, {}, invariants=["NonEmpty", "Report"])
+    fails = {}
+
+    def sink(v):
+        if isinstance(v, dict) and "fail" in v:
+            fails[v["fail"] - 1] = v["why"]
+    res = vkit.tlc("DnsMsgV", cfg, env={"DNSVEC": path}, print_sink=sink, timeout=timeout, workers=workers)
+    chk.add_tlc(name, res)
+    if res.distinct != len(vectors):
+        raise vkit.InfraError("%s: TLC judged %d of %d vectors\n%s" % (name, res.distinct, len(vectors), res.raw[-2000:]))
+    os.unlink(path)
+    chk.cov["traces_validated_against_impl"] += len(vectors)
+    return fails
+
+
+def gen_messages(chk, name, consts, *, timeout=900, workers=8):
+    """Enumerate the adversarial message space with TLC (DnsMsgGen.tla); the reference's invariants are checked on each."""
+    base = {"Mode": "reply", "QTypes": {1}, "FlagIdx": {1}, "QIdx": {1}, "RRIdx": {1}, "NsIdx": {1}, "ArIdx": {1},
+            "CntIdx": {1}, "CutSet": {0}, "IdSet": {0}, "MaxAn": 1, "Random": False, "RandomN": 0}
+    base.update(consts)
+    for k, v in list(base.items()):
+        if isinstance(v, (list, tuple, range)):
+            base[k] = set(v)
+    cfg = vkit.write_cfg(name, base, invariants=["Bytes", "Total", "CaseMonotone", "OkSound", "ReEncode", "Emit"])
+    out, seen = [], set()
+
+    def sink(v):
+        k = bytes(v["b"]) + bytes([v["qt"]])
+        if k not in seen:
+            seen.add(k)
+            out.append(v)
+    res = vkit.tlc("DnsMsgGen", cfg, print_sink=sink, timeout=timeout, workers=workers)
+    chk.add_tlc(name, res)
+    if not out:
+        raise vkit.InfraError("generator %s produced nothing\n%s" % (name, res.raw[-1500:]))
+    return out
+
+
+def hexb(b):
+    return bytes(b).hex()
